@@ -15,7 +15,8 @@ Tr == ndJsonDeserialize(IOEnv.TRACE_FILE)
 QTol    == 32      \* 16 eps * 2pi/lambda per component
 NormTol == 48      \* 24 eps * 2pi/lambda for |Q| and the scalar route
 CovTol  == 96      \* 48 eps * 2pi/lambda for R * Q(b1, b2) against Q(R b1, R b2)
-HklTol(var) == IF var = "rotation3" THEN 48 ELSE 32    \* in units of eps * cond * |hkl|
+HklTol(e) == (IF e.quat_operands THEN 48 ELSE 32) + e.extra   \* in units of eps * cond * |hkl|; extra: unit scale
+GraphTol == 64     \* eps * (cond |hkl| + |A^-1| / lambda): the inversion is fed the kernel's own Q (driver docstring)
 UbTol   == 16      \* eps * (column sum of |B|) per entry of U B
 
 VARIABLES l, nbad
@@ -28,6 +29,7 @@ JudgeQ(e) ==
         r2 == RotBeam(e.quat, b2)
         o  == e.o
     IN  IF ~IsBeam(b1) \/ ~IsBeam(b2) \/ ~IsRotation(e.quat) THEN "invalid_case"
+        ELSE IF e.form \notin QForms THEN "unknown_form"
         ELSE IF e.want.q # QDir(b1, b2) THEN "harness_reference_differs_from_spec"
         ELSE IF e.want.rq # QDir(r1, r2) \/ e.want.rq # RotRat(e.quat, QDirN(b1, b2), QDirD(b1, b2))
              THEN "harness_rotated_reference_differs_from_spec"
@@ -40,6 +42,7 @@ JudgeQ(e) ==
         ELSE IF o.e_norm > NormTol THEN "norm_of_Q_vector_is_not_4pi_sin_theta_over_lambda"
         ELSE IF o.e_scal > NormTol THEN "scalar_Q_differs_from_norm_of_Q_vector"
         ELSE IF ~o.bits_ok THEN "reassembled_Q_vector_differs_from_its_elements"
+        ELSE IF ~o.inputs_kept THEN "operand_modified_in_place"
         ELSE "ok"
 
 JudgeHkl(e) ==
@@ -47,6 +50,7 @@ JudgeHkl(e) ==
         D == RUBDen(e.qr, e.qu)
         o == e.o
     IN  IF Det3(e.B) = 0 \/ ~IsRotation(e.qr) \/ ~IsRotation(e.qu) THEN "invalid_case"
+        ELSE IF e.var \notin HklVars THEN "unknown_form"
         ELSE IF e.want.A # A \/ e.want.D # D \/ e.want.qlab # QLabNum(e.qr, e.qu, e.B, e.h)
                 \/ e.want.ub # UBNum(e.qu, e.B)
              THEN "harness_reference_differs_from_spec"
@@ -55,8 +59,24 @@ JudgeHkl(e) ==
         ELSE IF ~o.unit_ok THEN "unit_or_dtype_of_result"
         ELSE IF o.e_ub > UbTol THEN "ub_matrix_is_not_U_times_B"
         ELSE IF ~o.ub_bits_ok THEN "ub_matrix_not_bit_exact_for_exactly_representable_operands"
-        ELSE IF o.e_hkl > HklTol(e.var) THEN "hkl_does_not_solve_2pi_R_UB_hkl_eq_Q"
+        ELSE IF o.e_hkl > HklTol(e) THEN "hkl_does_not_solve_2pi_R_UB_hkl_eq_Q"
         ELSE IF ~o.split_ok THEN "hkl_elements_differ_from_hkl_vector"
+        ELSE IF ~o.inputs_kept THEN "operand_modified_in_place"
+        ELSE "ok"
+
+(* the coordinate-graph route: TLC recomputes lambda * hkl = Solve(R UB, e_i - e_f) and e_i - e_f *)
+JudgeGraph(e) ==
+    LET b1 == [v |-> e.b1, n |-> e.n1]
+        b2 == [v |-> e.b2, n |-> e.n2]
+        o  == e.o
+    IN  IF ~IsBeam(b1) \/ ~IsBeam(b2) \/ Det3(e.B) = 0 \/ ~IsRotation(e.qr) \/ ~IsRotation(e.qu) THEN "invalid_case"
+        ELSE IF e.want.x # HklTimesLambda(e.qr, e.qu, e.B, b1, b2) \/ e.want.qdir # QDir(b1, b2)
+             THEN "harness_reference_differs_from_spec"
+        ELSE IF ~o.returned THEN "kernel_raised"
+        ELSE IF ~o.unit_ok THEN "unit_or_dtype_of_result"
+        ELSE IF o.e_q > QTol THEN "Q_vector_is_not_2pi_over_lambda_times_ei_minus_ef"
+        ELSE IF o.e_hkl > GraphTol THEN "hkl_does_not_solve_2pi_R_UB_hkl_eq_Q"
+        ELSE IF ~o.split_ok THEN "elements_differ_from_their_vector"
         ELSE "ok"
 
 JudgeSplit(e) == IF ~e.returned THEN "kernel_raised"
@@ -64,6 +84,7 @@ JudgeSplit(e) == IF ~e.returned THEN "kernel_raised"
 
 Judge(e) == CASE e.ev = "q"     -> JudgeQ(e)
               [] e.ev = "hkl"   -> JudgeHkl(e)
+              [] e.ev = "graph" -> JudgeGraph(e)
               [] e.ev = "split" -> JudgeSplit(e)
               [] OTHER -> "unknown_event"
 
